@@ -35,19 +35,32 @@ Proof.
   apply andb_prop in H. destruct H as [H1 H2]. f_equal; [destruct x, y; try discriminate; auto | auto].
 Qed.
 
-(* __exit__ = flush; close   /   __del__ = close   /   AvroWriter.close flushes *)
+(* __exit__ = flush; close   /   __del__ = close   /   AvroWriter.flush never installs the placeholder writer,
+   AvroWriter.close installs it when nothing was written and then flushes   /   rotate_existing_file looks for a
+   free name *)
 Definition shapes_ok (sh : shapes) : bool :=
-  mcalls_eqb (sh_exit sh) [MFlush; MClose] && mcalls_eqb (sh_del sh) [MClose] && sh_avro_close_flushes sh.
+  mcalls_eqb (sh_exit sh) [MFlush; MClose] && mcalls_eqb (sh_del sh) [MClose] && sh_avro_close_flushes sh
+  && negb (sh_avro_flush_placeholder sh) && sh_avro_close_placeholder sh && sh_rotate_counter sh.
 (* SplitWriter.write: `written >= count` -> flush, close, written = 0, new writer *)
 Definition split_shapes_ok (sh : shapes) : bool :=
   sh_split_ge sh && rollsteps_eqb (sh_split_roll sh) [RFlush; RClose; RReset; RNew].
 
-Lemma shapes_ok_inv sh : shapes_ok sh = true ->
-  sh_exit sh = [MFlush; MClose] /\ sh_del sh = [MClose] /\ sh_avro_close_flushes sh = true.
+Lemma shapes_ok_all sh : shapes_ok sh = true ->
+  (sh_exit sh = [MFlush; MClose] /\ sh_del sh = [MClose] /\ sh_avro_close_flushes sh = true) /\
+  (sh_avro_flush_placeholder sh = false /\ sh_avro_close_placeholder sh = true /\ sh_rotate_counter sh = true).
 Proof.
-  unfold shapes_ok. intros H. apply andb_prop in H. destruct H as [H H3]. apply andb_prop in H. destruct H as [H1 H2].
+  unfold shapes_ok. intros H.
+  apply andb_prop in H. destruct H as [H H6]. apply andb_prop in H. destruct H as [H H5].
+  apply andb_prop in H. destruct H as [H H4]. apply andb_prop in H. destruct H as [H H3].
+  apply andb_prop in H. destruct H as [H1 H2]. apply negb_true_iff in H4.
   repeat split; auto using mcalls_eqb_eq.
 Qed.
+Lemma shapes_ok_inv sh : shapes_ok sh = true ->
+  sh_exit sh = [MFlush; MClose] /\ sh_del sh = [MClose] /\ sh_avro_close_flushes sh = true.
+Proof. intros H. apply shapes_ok_all in H. tauto. Qed.
+Lemma shapes_ok_inv2 sh : shapes_ok sh = true ->
+  sh_avro_flush_placeholder sh = false /\ sh_avro_close_placeholder sh = true /\ sh_rotate_counter sh = true.
+Proof. intros H. apply shapes_ok_all in H. tauto. Qed.
 Lemma split_shapes_ok_inv sh : split_shapes_ok sh = true ->
   sh_split_ge sh = true /\ sh_split_roll sh = [RFlush; RClose; RReset; RNew].
 Proof.
@@ -64,27 +77,9 @@ Definition has_close (h : list op) : bool := existsb is_closing h.
 Definition bare_close_first (h : list op) : bool :=
   match h with Close :: _ | Del :: _ => true | _ => false end.
 
-(* finding C17-avro-flush-before-first-write: flush() before the first write(), that write (it raises), and then
-   another write of the same descriptor while the writer is still open *)
-Fixpoint avro_poisoned (d : desc) (h : list op) : bool :=
-  match h with
-  | Flush :: t => avro_poisoned d t
-  | Write r :: t => N.eqb (r_desc r) d || avro_poisoned d t
-  | _ => false
-  end.
-Fixpoint avro_after_flush (h : list op) : bool :=
-  match h with
-  | Flush :: t => avro_after_flush t
-  | Write r :: t => avro_poisoned (r_desc r) t
-  | _ => false
-  end.
-Definition avro_bad (h : list op) : bool :=
-  match h with Flush :: t => avro_after_flush t | _ => false end.
-
 Definition excluded (k : adapter) (h : list op) : bool :=
   match k with
   | AStream => bare_close_first h
-  | AAvro => avro_bad h
   | _ => false
   end.
 
@@ -166,6 +161,7 @@ Notation step := (step sh batch).
 Notation run := (run sh batch).
 Notation do_close := (do_close sh).
 Notation do_calls := (do_calls sh).
+Notation do_flush := (Writers.do_flush sh).
 
 Lemma run_app k st h1 h2 :
   run k st (h1 ++ h2) =
@@ -182,7 +178,10 @@ Qed.
 Lemma closed_write k st r : w_open st = false -> do_write batch k st r = (st, Raised).
 Proof. intros H. unfold do_write. rewrite H. reflexivity. Qed.
 Lemma closed_flush k st : w_open st = false -> exists o, do_flush k st = (st, o).
-Proof. intros H. unfold do_flush. rewrite H. destruct k; eauto. Qed.
+Proof.
+  intros H. unfold Writers.do_flush, avro_flush. rewrite H.
+  destruct k; eauto. destruct (sh_avro_flush_placeholder sh); eauto.
+Qed.
 Lemma closed_close k st : w_open st = false -> do_close k st = (st, Ok).
 Proof. intros H. unfold Writers.do_close. rewrite H. reflexivity. Qed.
 Lemma closed_calls k st cs : w_open st = false -> exists o, do_calls k st cs = (st, o).
@@ -217,8 +216,9 @@ Proof.
 Qed.
 Lemma do_flush_raised k st st' : do_flush k st = (st', Raised) -> w_open st' = false.
 Proof.
-  unfold do_flush. destruct k; try (intros H; discriminate H).
-  destruct (w_open st) eqn:E; intros H; inversion H; subst; auto.
+  unfold Writers.do_flush, avro_flush. destruct k; try (intros H; discriminate H).
+  destruct (sh_avro_flush_placeholder sh); destruct (w_open st) eqn:E; [| |destruct (w_awr st)|];
+    intros H; inversion H; subst; auto.
 Qed.
 
 Lemma closing_step_closes k st o : is_closing o = true -> w_open (fst (step k st o)) = false.
@@ -510,33 +510,39 @@ Proof. unfold sqlite_order. apply (tbl_insert_all_perm rs []). Qed.
 (* avro                                                                                             *)
 
 Definition av_good (st : wstate) (acc : list rec) : Prop :=
-  (w_open st = true /\ exists d data, w_adesc st = Some d /\ w_awr st = KRec /\
+  (w_open st = true /\ w_adesc st = None /\ w_awr st = KNone /\ w_buf st = [] /\ w_file st = FileAvro KNone [] /\ acc = [])
+  \/ (w_open st = true /\ exists d data, w_adesc st = Some d /\ w_awr st = KRec /\
                                       w_file st = FileAvro KRec data /\ acc = data ++ w_buf st)
   \/ (w_open st = false /\ readable (w_file st) = Some acc).
 
-Lemma av_flush_good st acc : av_good st acc -> av_good (fst (do_flush AAvro st)) acc.
+Lemma av_flush_good st acc : av_good st acc -> av_good (fst (do_flush AAvro st)) acc /\ snd (do_flush AAvro st) = Ok.
 Proof.
-  intros [(Ho & d & data & Hd & Hw & Hf & Ha) | (Ho & Hr)]; cbn; rewrite Ho; cbn.
-  - left. unfold avro_flush_open. rewrite Hw. cbn. split; [exact Ho|]. exists d, (data ++ w_buf st).
+  destruct (shapes_ok_inv2 sh SH) as (Hfp & _ & _).
+  intros [(Ho & Hd & Hw & Hb & Hf & Ha) | [(Ho & d & data & Hd & Hw & Hf & Ha) | (Ho & Hr)]];
+    cbn [Writers.do_flush]; unfold avro_flush; rewrite Hfp, Ho; try rewrite Hw; cbn [fst snd]; (split; [|reflexivity]).
+  - left. repeat split; auto.
+  - right. left. unfold avro_writer_flush. cbn. split; [exact Ho|]. exists d, (data ++ w_buf st).
     unfold avro_hdr, avro_data. rewrite Hf. rewrite app_nil_r. auto.
-  - right. auto.
+  - right. right. auto.
 Qed.
 
 Lemma av_close_good st acc : av_good st acc -> av_good (fst (do_close AAvro st)) acc.
 Proof.
-  destruct (shapes_ok_inv sh SH) as (_ & _ & Hav).
-  intros [(Ho & d & data & Hd & Hw & Hf & Ha) | (Ho & Hr)]; unfold Writers.do_close; rewrite Ho; cbn.
-  - right. split; [reflexivity|]. rewrite Hav. unfold avro_flush_open. rewrite Hw. cbn.
-    unfold avro_hdr, avro_data. rewrite Hf. cbn. rewrite Ha. reflexivity.
-  - right. auto.
+  destruct (shapes_ok_inv sh SH) as (_ & _ & Hav). destruct (shapes_ok_inv2 sh SH) as (Hfp & Hcp & _).
+  intros [(Ho & Hd & Hw & Hb & Hf & Ha) | [(Ho & d & data & Hd & Hw & Hf & Ha) | (Ho & Hr)]];
+    unfold Writers.do_close; rewrite Ho; cbn [negb]; cbv iota.
+  - right. right. rewrite Hav, Hcp. unfold avro_flush, avro_install_placeholder. rewrite Hfp, Hw. cbn.
+    unfold avro_hdr, avro_data. rewrite Hf, Hb. cbn. rewrite Ho. cbn. subst acc. auto.
+  - right. right. rewrite Hav, Hcp. unfold avro_flush, avro_install_placeholder. rewrite Hfp, Hw, Ho, Hw. cbn.
+    unfold avro_hdr, avro_data. rewrite Hf. cbn. rewrite Ha. auto.
+  - right. right. auto.
 Qed.
 
 Lemma av_calls_good cs : forall st acc, av_good st acc -> av_good (fst (do_calls AAvro st cs)) acc.
 Proof.
   induction cs as [|c cs IH]; intros st acc G; cbn; [exact G|].
   destruct c; cbn [do_call].
-  - pose proof (av_flush_good st acc G) as G1. destruct (do_flush AAvro st) as [s1 o1]. cbn in *.
-    destruct o1; [auto | exact G1].
+  - pose proof (av_flush_good st acc G) as [G1 O1]. destruct (do_flush AAvro st) as [s1 o1]. cbn in *. subst o1. auto.
   - pose proof (av_close_good st acc G) as G1. pose proof (do_close_closed AAvro st) as [_ O1].
     destruct (do_close AAvro st) as [s1 o1]. cbn in *. subst o1. auto.
 Qed.
@@ -545,12 +551,14 @@ Lemma av_step_good st acc o :
   av_good st acc -> av_good (fst (step AAvro st o)) (acc ++ newly o (snd (step AAvro st o))).
 Proof.
   intros G. destruct o; cbn [Writers.step].
-  - destruct G as [(Ho & d & data & Hd & Hw & Hf & Ha) | (Ho & Hr)].
+  - destruct G as [(Ho & Hd & Hw & Hb & Hf & Ha) | [(Ho & d & data & Hd & Hw & Hf & Ha) | (Ho & Hr)]].
+    + unfold do_write. rewrite Ho, Hd. cbn [negb]. cbv iota. unfold avro_hdr, avro_data. rewrite Hf. cbn [fst snd newly].
+      right. left. cbn. split; [reflexivity|]. exists (r_desc r), []. rewrite Hb. subst acc. auto.
     + unfold do_write. rewrite Ho, Hd. cbn [negb]. cbv iota.
       destruct (N.eqb d (r_desc r)) eqn:E; try rewrite Hw; cbn.
-      * left. split; [exact Ho|]. exists d, data. cbn. repeat split; auto. rewrite Ha, <- app_assoc. reflexivity.
-      * rewrite app_nil_r. left. split; [exact Ho|]. exists d, data. auto.
-    + rewrite (closed_write AAvro st r Ho). cbn. rewrite app_nil_r. right. auto.
+      * right. left. split; [exact Ho|]. exists d, data. cbn. repeat split; auto. rewrite Ha, <- app_assoc. reflexivity.
+      * rewrite app_nil_r. right. left. split; [exact Ho|]. exists d, data. auto.
+    + rewrite (closed_write AAvro st r Ho). cbn. rewrite app_nil_r. right. right. auto.
   - cbn [newly]. rewrite app_nil_r. apply av_flush_good. exact G.
   - cbn [newly]. rewrite app_nil_r. apply av_close_good. exact G.
   - cbn [newly]. rewrite app_nil_r. apply av_calls_good. exact G.
@@ -568,142 +576,14 @@ Proof.
     rewrite app_assoc. exact IH.
 Qed.
 
-Lemma av_good_closed_readable st acc : av_good st acc -> w_open st = false -> readable (w_file st) = Some acc.
-Proof. intros [(Ho & _) | (_ & Hr)] Hc; [rewrite Ho in Hc; discriminate | exact Hr]. Qed.
-
-(* the writer on the fallback schema "empty": flushed before anything was written ... *)
-Definition av_eflushed (st : wstate) : Prop :=
-  w_open st = true /\ w_adesc st = None /\ w_awr st = KEmpty /\ w_buf st = [] /\ w_file st = FileAvro KEmpty [].
-(* ... and after the first write() failed: self.desc is set, self.writer still is the "empty" writer *)
-Definition av_poisoned (st : wstate) (d : desc) : Prop :=
-  w_open st = true /\ w_adesc st = Some d /\ w_awr st = KEmpty /\ w_buf st = [] /\ w_file st = FileAvro KEmpty [].
-
-Lemma av_e_flush st : w_open st = true -> w_awr st = KEmpty -> w_buf st = [] -> w_file st = FileAvro KEmpty [] ->
-  avro_flush_open st = st.
-Proof.
-  intros Ho Hw Hb Hf. unfold avro_flush_open. rewrite Hw. unfold avro_hdr, avro_data. rewrite Hf, Hb. cbn.
-  destruct st; cbn in *; subst; reflexivity.
-Qed.
-
-Lemma av_e_close st : w_open st = true -> w_awr st = KEmpty -> w_buf st = [] -> w_file st = FileAvro KEmpty [] ->
-  av_good (fst (do_close AAvro st)) [].
-Proof.
-  intros Ho Hw Hb Hf. destruct (shapes_ok_inv sh SH) as (_ & _ & Hav).
-  unfold Writers.do_close. rewrite Ho. cbn [negb]. cbv iota. rewrite Hav, (av_e_flush st Ho Hw Hb Hf).
-  right. cbn. rewrite Hf. auto.
-Qed.
-
-Lemma av_e_exit st : w_open st = true -> w_awr st = KEmpty -> w_buf st = [] -> w_file st = FileAvro KEmpty [] ->
-  av_good (fst (do_calls AAvro st (sh_exit sh))) [] /\ av_good (fst (do_calls AAvro st (sh_del sh))) [].
-Proof.
-  intros Ho Hw Hb Hf. destruct (shapes_ok_inv sh SH) as (He & Hd & Hav). rewrite He, Hd.
-  cbn [Writers.do_calls Writers.do_call]. unfold do_flush. rewrite Ho, (av_e_flush st Ho Hw Hb Hf).
-  pose proof (av_e_close st Ho Hw Hb Hf) as G. pose proof (do_close_closed AAvro st) as [_ O1].
-  destruct (do_close AAvro st) as [s1 o1]. cbn [fst snd] in *. subst o1. auto.
-Qed.
-
-Lemma av_closed_tail st h : av_good st [] -> w_open st = false ->
-  w_open (fst (run AAvro st h)) = false /\
-  readable (w_file (fst (run AAvro st h))) = Some (snd (run AAvro st h)).
-Proof.
-  intros G Hc. rewrite (closed_run AAvro st h Hc). cbn. split; [exact Hc|]. apply av_good_closed_readable; assumption.
-Qed.
-
-Lemma av_poisoned_run h : forall st d, av_poisoned st d -> avro_poisoned d h = false -> has_close h = true ->
-  readable (w_file (fst (run AAvro st h))) = Some (snd (run AAvro st h)).
-Proof.
-  induction h as [|o h IH]; intros st d P Hp Hc; [discriminate|].
-  pose proof P as (Ho & Hd & Hw & Hb & Hf).
-  rewrite run_cons. destruct o; cbn [avro_poisoned has_close existsb is_closing orb] in *.
-  - (* write *)
-    apply orb_false_elim in Hp. destruct Hp as [Hne Hp].
-    cbn [Writers.step]. unfold do_write. rewrite Ho, Hd. cbn [negb]. cbv iota.
-    rewrite N.eqb_sym in Hne. rewrite Hne.
-    specialize (IH st d P Hp Hc). destruct (run AAvro st h) as [s2 a2]. exact IH.
-  - cbn [Writers.step]. cbn [do_flush]. rewrite Ho. rewrite (av_e_flush st Ho Hw Hb Hf).
-    specialize (IH st d P Hp Hc). destruct (run AAvro st h) as [s2 a2]. exact IH.
-  - cbn [Writers.step]. pose proof (av_e_close st Ho Hw Hb Hf) as G. pose proof (do_close_closed AAvro st) as [C1 O1].
-    destruct (do_close AAvro st) as [s1 o1]. cbn [fst snd] in *.
-    destruct (av_closed_tail s1 h G C1) as [_ R]. destruct (run AAvro s1 h) as [s2 a2]. cbn [newly]. exact R.
-  - cbn [Writers.step]. pose proof (av_e_exit st Ho Hw Hb Hf) as [G _].
-    pose proof (closing_step_closes AAvro st WithExit eq_refl) as C1. cbn [Writers.step] in C1.
-    destruct (do_calls AAvro st (sh_exit sh)) as [s1 o1]. cbn [fst snd] in *.
-    destruct (av_closed_tail s1 h G C1) as [_ R]. destruct (run AAvro s1 h) as [s2 a2]. cbn [newly]. exact R.
-  - cbn [Writers.step]. pose proof (av_e_exit st Ho Hw Hb Hf) as [_ G].
-    pose proof (closing_step_closes AAvro st Del eq_refl) as C1. cbn [Writers.step] in C1.
-    destruct (do_calls AAvro st (sh_del sh)) as [s1 o1]. cbn [fst snd] in *.
-    destruct (av_closed_tail s1 h G C1) as [_ R]. destruct (run AAvro s1 h) as [s2 a2]. cbn [newly]. exact R.
-Qed.
-
-Lemma av_eflushed_run h : forall st, av_eflushed st -> avro_after_flush h = false -> has_close h = true ->
-  readable (w_file (fst (run AAvro st h))) = Some (snd (run AAvro st h)).
-Proof.
-  induction h as [|o h IH]; intros st P Hp Hc; [discriminate|].
-  pose proof P as (Ho & Hd & Hw & Hb & Hf).
-  rewrite run_cons. destruct o; cbn [avro_after_flush has_close existsb is_closing orb] in *.
-  - (* the first write raises and leaves the writer poisoned *)
-    cbn [Writers.step]. unfold do_write. rewrite Ho, Hd. cbn [negb]. cbv iota.
-    unfold avro_hdr. rewrite Hf. cbv iota.
-    match goal with |- context [run AAvro ?s h] => set (st1 := s) end.
-    assert (P1 : av_poisoned st1 (r_desc r)) by (subst st1; repeat split; cbn; auto).
-    pose proof (av_poisoned_run h st1 (r_desc r) P1 Hp Hc) as R.
-    destruct (run AAvro st1 h) as [s2 a2]. exact R.
-  - cbn [Writers.step]. cbn [do_flush]. rewrite Ho. rewrite (av_e_flush st Ho Hw Hb Hf).
-    specialize (IH st P Hp Hc). destruct (run AAvro st h) as [s2 a2]. exact IH.
-  - cbn [Writers.step]. pose proof (av_e_close st Ho Hw Hb Hf) as G. pose proof (do_close_closed AAvro st) as [C1 O1].
-    destruct (do_close AAvro st) as [s1 o1]. cbn [fst snd] in *.
-    destruct (av_closed_tail s1 h G C1) as [_ R]. destruct (run AAvro s1 h) as [s2 a2]. cbn [newly]. exact R.
-  - cbn [Writers.step]. pose proof (av_e_exit st Ho Hw Hb Hf) as [G _].
-    pose proof (closing_step_closes AAvro st WithExit eq_refl) as C1. cbn [Writers.step] in C1.
-    destruct (do_calls AAvro st (sh_exit sh)) as [s1 o1]. cbn [fst snd] in *.
-    destruct (av_closed_tail s1 h G C1) as [_ R]. destruct (run AAvro s1 h) as [s2 a2]. cbn [newly]. exact R.
-  - cbn [Writers.step]. pose proof (av_e_exit st Ho Hw Hb Hf) as [_ G].
-    pose proof (closing_step_closes AAvro st Del eq_refl) as C1. cbn [Writers.step] in C1.
-    destruct (do_calls AAvro st (sh_del sh)) as [s1 o1]. cbn [fst snd] in *.
-    destruct (av_closed_tail s1 h G C1) as [_ R]. destruct (run AAvro s1 h) as [s2 a2]. cbn [newly]. exact R.
-Qed.
-
-Lemma durable_avro h : has_close h = true -> avro_bad h = false ->
+Lemma durable_avro h : has_close h = true ->
   readable (w_file (fst (run AAvro (w_init AAvro) h))) = Some (snd (run AAvro (w_init AAvro) h)).
 Proof.
-  intros Hc Hb. destruct (shapes_ok_inv sh SH) as (He & Hd & Hav).
-  destruct h as [|o h]; [discriminate|].
-  assert (Hfresh : w_open (w_init AAvro) = true /\ w_awr (w_init AAvro) = KNone) by (split; reflexivity).
-  destruct o.
-  - (* first op is a write: the record-schema writer *)
-    rewrite run_cons. cbn [Writers.step]. cbn.
-    match goal with |- context [run AAvro ?s h] => set (st1 := s) end.
-    assert (G : av_good st1 [r]).
-    { left. subst st1. cbn. split; [reflexivity|]. exists (r_desc r), []. auto. }
-    pose proof (av_run_good h st1 [r] G) as G2.
-    pose proof (has_close_closed AAvro (Write r :: h) (w_init AAvro) Hc) as Hcl.
-    rewrite run_cons in Hcl. cbn [Writers.step] in Hcl. cbn in Hcl. fold st1 in Hcl.
-    destruct (run AAvro st1 h) as [s2 a2]. cbn [fst snd] in *.
-    apply av_good_closed_readable; assumption.
-  - (* first op is a flush *)
-    rewrite run_cons. cbn [Writers.step]. cbn.
-    match goal with |- context [run AAvro ?s h] => set (st1 := s) end.
-    assert (P : av_eflushed st1) by (subst st1; repeat split; reflexivity).
-    cbn [avro_bad] in Hb. cbn [has_close existsb is_closing orb] in Hc.
-    pose proof (av_eflushed_run h st1 P Hb Hc) as R. destruct (run AAvro st1 h) as [s2 a2]. exact R.
-  - rewrite run_cons. cbn [Writers.step].
-    assert (G : av_good (fst (do_close AAvro (w_init AAvro))) []).
-    { unfold Writers.do_close. cbn. rewrite Hav. cbn. right. auto. }
-    pose proof (do_close_closed AAvro (w_init AAvro)) as [C1 O1].
-    destruct (do_close AAvro (w_init AAvro)) as [s1 o1]. cbn [fst snd] in *.
-    destruct (av_closed_tail s1 h G C1) as [_ R]. destruct (run AAvro s1 h) as [s2 a2]. cbn [newly]. exact R.
-  - rewrite run_cons. cbn [Writers.step].
-    assert (G : av_good (fst (do_calls AAvro (w_init AAvro) (sh_exit sh))) []).
-    { rewrite He. unfold Writers.do_close. cbn. rewrite Hav. cbn. right. auto. }
-    pose proof (closing_step_closes AAvro (w_init AAvro) WithExit eq_refl) as C1. cbn [Writers.step] in C1.
-    destruct (do_calls AAvro (w_init AAvro) (sh_exit sh)) as [s1 o1]. cbn [fst snd] in *.
-    destruct (av_closed_tail s1 h G C1) as [_ R]. destruct (run AAvro s1 h) as [s2 a2]. cbn [newly]. exact R.
-  - rewrite run_cons. cbn [Writers.step].
-    assert (G : av_good (fst (do_calls AAvro (w_init AAvro) (sh_del sh))) []).
-    { rewrite Hd. unfold Writers.do_close. cbn. rewrite Hav. cbn. right. auto. }
-    pose proof (closing_step_closes AAvro (w_init AAvro) Del eq_refl) as C1. cbn [Writers.step] in C1.
-    destruct (do_calls AAvro (w_init AAvro) (sh_del sh)) as [s1 o1]. cbn [fst snd] in *.
-    destruct (av_closed_tail s1 h G C1) as [_ R]. destruct (run AAvro s1 h) as [s2 a2]. cbn [newly]. exact R.
+  intros Hc.
+  assert (G0 : av_good (w_init AAvro) []) by (left; repeat split; reflexivity).
+  pose proof (av_run_good h _ _ G0) as G. cbn [app] in G.
+  pose proof (has_close_closed AAvro h (w_init AAvro) Hc) as Hcl.
+  destruct G as [(Ho & _) | [(Ho & _) | (_ & Hr)]]; [rewrite Ho in Hcl; discriminate | rewrite Ho in Hcl; discriminate | exact Hr].
 Qed.
 
 (* ---------------------------------------------------------------------------------------------- *)
@@ -848,6 +728,7 @@ Hypothesis LIM : 0 < limit.
 
 Notation run := (Writers.run sh batch).
 Notation step := (Writers.step sh batch).
+Notation do_flush := (Writers.do_flush sh).
 
 (* how the inner writer of the LAST part is closed, for each way of closing the split writer *)
 Definition inner_close (c : op) : list op :=
@@ -871,7 +752,7 @@ Qed.
 Lemma open_flush_ok st : w_open st = true ->
   snd (do_flush k st) = Ok /\ w_open (fst (do_flush k st)) = true.
 Proof.
-  intros Ho. unfold do_flush. rewrite Ho. destruct k; try discriminate ACC; cbn; auto.
+  intros Ho. unfold Writers.do_flush. rewrite Ho. destruct k; try discriminate ACC; cbn; auto.
   unfold stream_header. destruct (w_hdr st); cbn; auto.
 Qed.
 
@@ -1311,7 +1192,9 @@ Section Rotation.
 Variable sh : shapes.
 Variable batch : nat.
 Hypothesis SH : shapes_ok sh = true.
-Variable rot_name : path -> stamp -> path.
+Variable rot_name : path -> stamp -> nat -> path.
+(* distinct counters give distinct names *)
+Hypothesis ROT_INJ : forall p s n m, rot_name p s n = rot_name p s m -> n = m.
 Variable k : adapter.
 Hypothesis ACC : always_accepts k = true.
 
@@ -1328,10 +1211,57 @@ Proof.
   destruct (do_close sh k (wafter rs)). reflexivity.
 Qed.
 
+(* the free-name search finds a free name: of (number of files + 1) distinct candidates one is not a file *)
+Lemma pick_name_fresh files p s : forall fuel n,
+  (exists m, n <= m <= n + fuel /\ fs_mem String.eqb (rot_name p s m) files = false) ->
+  fs_mem String.eqb (pick_name rot_name files p s fuel n) files = false.
+Proof.
+  induction fuel as [|fuel IH]; intros n (m & Hm & Hf); cbn [pick_name].
+  - assert (m = n) by lia. subst m. rewrite Hf. exact Hf.
+  - destruct (fs_mem String.eqb (rot_name p s n) files) eqn:E; [|exact E].
+    apply IH. exists m. split; [|exact Hf].
+    assert (m <> n) by (intros ->; congruence). lia.
+Qed.
+
+Lemma some_candidate_free (files : list (path * file)) p s :
+  exists m, m <= List.length files /\ fs_mem String.eqb (rot_name p s m) files = false.
+Proof.
+  assert (Hdec : forall b, (forall m, m <= b -> fs_mem String.eqb (rot_name p s m) files = true) \/
+                           (exists m, m <= b /\ fs_mem String.eqb (rot_name p s m) files = false)).
+  { induction b as [|b IH].
+    - destruct (fs_mem String.eqb (rot_name p s 0) files) eqn:E.
+      + left. intros m Hm. assert (m = 0) by lia. subst. exact E.
+      + right. exists 0. auto.
+    - destruct IH as [IH|(m & Hm & Hf)]; [|right; exists m; split; [lia | exact Hf]].
+      destruct (fs_mem String.eqb (rot_name p s (S b)) files) eqn:E.
+      + left. intros m Hm. destruct (Nat.eq_dec m (S b)) as [->|Hne]; [exact E | apply IH; lia].
+      + right. exists (S b). auto. }
+  destruct (Hdec (List.length files)) as [Hall|Hex]; [exfalso | exact Hex].
+  set (cands := map (rot_name p s) (seq 0 (S (List.length files)))).
+  assert (Hnd : NoDup cands).
+  { apply FinFun.Injective_map_NoDup; [intros x y; apply ROT_INJ | apply seq_NoDup]. }
+  assert (Hincl : incl cands (map fst files)).
+  { intros c Hc. apply in_map_iff in Hc. destruct Hc as (m & <- & Hm). apply in_seq in Hm.
+    apply fs_mem_true. apply Hall. lia. }
+  pose proof (NoDup_incl_length Hnd Hincl) as Hlen. unfold cands in Hlen. rewrite !map_length, seq_length in Hlen. lia.
+Qed.
+
+Lemma pick_name_free files p s :
+  fs_mem String.eqb (pick_name rot_name files p s (List.length files) 0) files = false.
+Proof.
+  apply pick_name_fresh. destruct (some_candidate_free files p s) as (m & Hm & Hf). exists m. split; [lia | exact Hf].
+Qed.
+
 (* a name obtained from p by zero or more rotations *)
 Inductive rot_of : path -> path -> Prop :=
 | rot_refl p : rot_of p p
-| rot_step p n s : rot_of p n -> rot_of p (rot_name n s).
+| rot_step p n s c : rot_of p n -> rot_of p (rot_name n s c).
+
+Lemma pick_name_is_rot files p s : forall fuel n, exists c, pick_name rot_name files p s fuel n = rot_name p s c.
+Proof.
+  induction fuel as [|fuel IH]; intros n; cbn [pick_name];
+    destruct (fs_mem String.eqb (rot_name p s n) files); eauto.
+Qed.
 
 Variable pre : list (path * file).          (* the files that exist before the writer starts *)
 Hypothesis PRE : NoDup (map fst pre).
@@ -1354,6 +1284,7 @@ Definition pt_inv (st : pstate) (closed : list seg) (cur : option seg) : Prop :=
   NoDup (map fst (p_fs st)) /\
   Permutation (map snd (p_fs st)) (map snd pre ++ map (fun sg => seg_file (snd sg)) closed) /\
   Forall (origin closed) (p_fs st) /\
+  Forall no_overwrite (p_log st) /\
   match cur with
   | None => p_current st = None /\ p_writer st = None
   | Some (p, rs) => p_current st = Some p /\ p_writer st = Some (wafter rs) /\ ~ In p (map fst (p_fs st))
@@ -1366,21 +1297,23 @@ Proof.
   - apply Forall_forall. intros [p f] Hin. exists p. split; [left; exact Hin | apply rot_refl].
 Qed.
 
-(* rotate_existing_file *)
+(* rotate_existing_file: the destination is a free name, so the rename replaces nothing *)
 Lemma pt_rotate_spec st p closed :
-  NoDup (map fst (p_fs st)) -> Forall (origin closed) (p_fs st) ->
-  Forall no_overwrite (p_log (pt_rotate rot_name st p)) ->
-  let st1 := pt_rotate rot_name st p in
+  NoDup (map fst (p_fs st)) -> Forall (origin closed) (p_fs st) -> Forall no_overwrite (p_log st) ->
+  let st1 := pt_rotate sh rot_name st p in
   p_current st1 = p_current st /\ p_writer st1 = p_writer st /\
   NoDup (map fst (p_fs st1)) /\ Permutation (map snd (p_fs st1)) (map snd (p_fs st)) /\
   Forall (origin closed) (p_fs st1) /\ ~ In p (map fst (p_fs st1)) /\
-  (forall q, In q (map fst (p_fs st1)) -> In q (map fst (p_fs st)) \/ ~ In q (map fst (pt_files st))).
+  (forall q, In q (map fst (p_fs st1)) -> In q (map fst (p_fs st)) \/ ~ In q (map fst (pt_files st))) /\
+  Forall no_overwrite (p_log st1).
 Proof.
-  intros Hn Ho Hlog. unfold pt_rotate in *. destruct (fs_mem String.eqb p (p_fs st)) eqn:Em; cbn zeta.
+  intros Hn Ho Hlog. destruct (shapes_ok_inv2 sh SH) as (_ & _ & Hrc).
+  unfold pt_rotate in *. rewrite Hrc. destruct (fs_mem String.eqb p (p_fs st)) eqn:Em; cbn zeta.
   - cbn [p_current p_writer p_fs p_log] in *.
-    apply Forall_app in Hlog. destruct Hlog as [_ Hlog]. inversion Hlog as [|e l He _]; subst. unfold no_overwrite in He.
-    cbn [ren_dst_existed] in He. apply fs_mem_false in He.
-    set (dst := rot_name p (hd EmptyString (p_clock st))) in *.
+    set (s := hd EmptyString (p_clock st)) in *.
+    set (dst := pick_name rot_name (pt_files st) p s (List.length (pt_files st)) 0) in *.
+    pose proof (pick_name_free (pt_files st) p s) as Hfree. fold dst in Hfree.
+    pose proof Hfree as He. apply fs_mem_false in He.
     assert (Hd : ~ In dst (map fst (p_fs st))).
     { intros H. apply He. unfold pt_files. rewrite map_app, in_app_iff. left. exact H. }
     apply fs_mem_true in Em. destruct (fs_get_some p (p_fs st) Em) as [v Hv].
@@ -1397,42 +1330,37 @@ Proof.
         rewrite Forall_forall in Ho. apply Ho. exact Hin.
       * constructor; [|constructor]. rewrite Forall_forall in Ho.
         destruct (Ho (p, v) (fs_get_in p _ v Hv)) as (q & Hq & Hr). exists q. cbn [fst snd] in *. split; [exact Hq|].
+        destruct (pick_name_is_rot (pt_files st) p s (List.length (pt_files st)) 0) as [c Hc]. fold dst in Hc. rewrite Hc.
         apply rot_step. exact Hr.
     + rewrite map_app, in_app_iff, fs_remove_keys. cbn. intros [[_ H]|[H|[]]]; [congruence|].
       apply Hd. rewrite H. exact Em.
     + intros q. rewrite map_app, in_app_iff, fs_remove_keys. cbn. intros [[H _]|[H|[]]]; [left; exact H|].
       right. subst q. exact He.
+    + apply Forall_app. split; [exact Hlog|]. constructor; [|constructor]. unfold no_overwrite. cbn. exact Hfree.
   - apply fs_mem_false in Em. repeat split; auto.
-Qed.
-
-Lemma pt_rotate_log st p : exists new, p_log (pt_rotate rot_name st p) = p_log st ++ new.
-Proof.
-  unfold pt_rotate. destruct (fs_mem String.eqb p (p_fs st)); cbn; [eauto | exists []; rewrite app_nil_r; reflexivity].
 Qed.
 
 Lemma wafter_nil : wafter [] = w_init k.
 Proof. reflexivity. Qed.
 
 Lemma pt_inv_write_current st closed p rs r : pt_inv st closed (Some (p, rs)) ->
-  snd (pt_write st p r) = Ok /\ pt_inv (fst (pt_write st p r)) closed (Some (p, rs ++ [r])) /\
-  p_log (fst (pt_write st p r)) = p_log st.
+  snd (pt_write st p r) = Ok /\ pt_inv (fst (pt_write st p r)) closed (Some (p, rs ++ [r])).
 Proof.
-  intros (Hn & Hp & Ho & Hc & Hw & Hnin). unfold Writers.pt_write. rewrite Hc, String.eqb_refl, Hw.
+  intros (Hn & Hp & Ho & Hl & Hc & Hw & Hnin). unfold Writers.pt_write. rewrite Hc, String.eqb_refl, Hw.
   destruct (open_write_ok batch k ACC (wafter rs) r (wafter_open sh batch k ACC rs)) as [O1 _].
   pose proof (wafter_snoc sh batch k rs r) as Hs.
   destruct (do_write batch k (wafter rs) r) as [w' o1]. cbn [fst snd] in *. subst. split; [reflexivity|].
-  split; [|reflexivity]. unfold pt_inv. cbn [p_fs p_current p_writer]. repeat split; auto.
+  unfold pt_inv. cbn [p_fs p_current p_writer p_log]. repeat split; auto.
 Qed.
 
 (* record_stream_for_path for a new path, then the write *)
 Lemma pt_inv_write_switch st closed cur p r :
   pt_inv st closed cur ->
   match cur with Some (p0, _) => p0 <> p | None => True end ->
-  Forall no_overwrite (p_log (fst (pt_write st p r))) ->
   snd (pt_write st p r) = Ok /\
   pt_inv (fst (pt_write st p r)) (closed ++ match cur with Some sg => [sg] | None => [] end) (Some (p, [r])).
 Proof.
-  intros (Hn & Hp & Ho & Hcur) Hne Hlog.
+  intros (Hn & Hp & Ho & Hl & Hcur) Hne.
   assert (Hsw : fst (pt_write st p r) =
                 (let st1 := pt_switch sh rot_name k st p in
                  mkP (p_current st1) (Some (wafter [r])) (p_fs st1) (p_clock st1) (p_log st1))
@@ -1448,10 +1376,10 @@ Proof.
     destruct (open_write_ok batch k ACC (w_init k) r) as [O1 _]; [destruct k; reflexivity|].
     pose proof (wafter_snoc sh batch k [] r) as Hs. rewrite wafter_nil in Hs. cbn [app] in Hs.
     destruct (do_write batch k (w_init k) r) as [w' o1]. cbn [fst snd] in *. subst. split; reflexivity. }
-  destruct Hsw as [Hfst Hsnd]. split; [exact Hsnd|]. rewrite Hfst in *. cbn zeta in *. cbn [p_log] in Hlog.
+  destruct Hsw as [Hfst Hsnd]. split; [exact Hsnd|]. rewrite Hfst in *. cbn zeta in *.
   unfold pt_switch in *. cbn [p_log p_fs p_current p_clock p_writer] in *.
-  destruct (pt_rotate_spec st p closed Hn Ho Hlog) as (Hc1 & Hw1 & Hn1 & Hp1 & Ho1 & Hnp & Hq).
-  set (st1 := pt_rotate rot_name st p) in *.
+  destruct (pt_rotate_spec st p closed Hn Ho Hl) as (Hc1 & Hw1 & Hn1 & Hp1 & Ho1 & Hnp & Hq & Hl1).
+  set (st1 := pt_rotate sh rot_name st p) in *.
   destruct cur as [[p0 rs]|].
   - destruct Hcur as (Hc & Hw & Hnin). rewrite Hc, Hw in *.
     assert (Hp0 : ~ In p0 (map fst (p_fs st1))).
@@ -1459,7 +1387,7 @@ Proof.
       right. left. reflexivity. }
     rewrite seg_file_close. rewrite fs_put_fresh by exact Hp0.
     rewrite fs_remove_notin by (rewrite map_app, in_app_iff; cbn; intros [H|[H|[]]]; [tauto | congruence]).
-    unfold pt_inv. cbn [p_fs p_current p_writer]. repeat split; auto.
+    unfold pt_inv. cbn [p_fs p_current p_writer p_log]. repeat split; auto.
     + rewrite map_app. cbn. apply nodup_snoc; assumption.
     + rewrite !map_app. cbn. rewrite app_assoc. apply Permutation_app_tail.
       eapply Permutation_trans; [exact Hp1 | exact Hp].
@@ -1470,59 +1398,31 @@ Proof.
     + rewrite map_app, in_app_iff. cbn. intros [H|[H|[]]]; [tauto | congruence].
   - destruct Hcur as (Hc & Hw). rewrite Hc in *.
     rewrite fs_remove_notin by exact Hnp.
-    unfold pt_inv. cbn [p_fs p_current p_writer]. rewrite app_nil_r. repeat split; auto.
+    unfold pt_inv. cbn [p_fs p_current p_writer p_log]. rewrite app_nil_r. repeat split; auto.
     eapply Permutation_trans; [exact Hp1 | exact Hp].
-Qed.
-
-Lemma pt_write_log st p r : exists new, p_log (fst (pt_write st p r)) = p_log st ++ new.
-Proof.
-  unfold Writers.pt_write.
-  assert (H : exists new, p_log (pt_switch sh rot_name k st p) = p_log st ++ new).
-  { unfold pt_switch. cbn [p_log]. apply pt_rotate_log. }
-  assert (Hid : exists new, p_log st = p_log st ++ new) by (exists []; rewrite app_nil_r; reflexivity).
-  set (st1 := match p_current st with
-              | Some p0 => if String.eqb p0 p then st else pt_switch sh rot_name k st p
-              | None => pt_switch sh rot_name k st p end).
-  assert (H1 : exists new, p_log st1 = p_log st ++ new).
-  { subst st1. destruct (p_current st) as [p0|]; [destruct (String.eqb p0 p)|]; assumption. }
-  destruct (p_writer st1); [|exact H1]. destruct (do_write batch k w r). exact H1.
 Qed.
 
 Definition pw (pr : path * rec) : pop := PWrite (fst pr) (snd pr).
 
-Lemma pt_run_log ws : forall st, exists new, p_log (fst (pt_run st (map pw ws))) = p_log st ++ new.
-Proof.
-  induction ws as [|[p r] ws IH]; intros st; cbn [map pw fst snd Writers.pt_run].
-  - exists []. rewrite app_nil_r. reflexivity.
-  - destruct (pt_write_log st p r) as [n1 H1]. destruct (pt_write st p r) as [st' o]. cbn [fst] in *.
-    destruct (IH st') as [n2 H2]. destruct (pt_run st' (map pw ws)) as [st'' os]. cbn [fst] in *.
-    exists (n1 ++ n2). rewrite H2, H1, app_assoc. reflexivity.
-Qed.
-
 Lemma pt_run_inv ws : forall st cc, pt_inv st (fst cc) (snd cc) ->
-  Forall no_overwrite (p_log (fst (pt_run st (map pw ws)))) ->
   Forall (fun o => o = Ok) (snd (pt_run st (map pw ws))) /\
   pt_inv (fst (pt_run st (map pw ws))) (fst (seg_run cc ws)) (snd (seg_run cc ws)).
 Proof.
-  induction ws as [|[p r] ws IH]; intros st cc Hi Hlog.
+  induction ws as [|[p r] ws IH]; intros st cc Hi.
   - cbn. split; [constructor | exact Hi].
   - cbn [map pw fst snd Writers.pt_run seg_run fold_left] in *. fold (seg_run (seg_step cc (p, r)) ws).
-    assert (Hlog1 : Forall no_overwrite (p_log (fst (pt_write st p r)))).
-    { destruct (pt_write st p r) as [st' o] eqn:E. cbn [fst].
-      destruct (pt_run_log ws st') as [new Hn]. destruct (pt_run st' (map pw ws)) as [st'' os]. cbn [fst] in *.
-      rewrite Hn in Hlog. apply Forall_app in Hlog. tauto. }
     assert (Hstep : snd (pt_write st p r) = Ok /\
                     pt_inv (fst (pt_write st p r)) (fst (seg_step cc (p, r))) (snd (seg_step cc (p, r)))).
     { destruct cc as [cl [[p0 rs]|]]; unfold seg_step; cbn [fst snd] in *.
       - destruct (String.eqb_spec p0 p) as [->|Hne]; cbn [fst snd].
-        + destruct (pt_inv_write_current st cl p rs r Hi) as (H1 & H2 & _). auto.
-        + apply (pt_inv_write_switch st cl (Some (p0, rs)) p r Hi Hne Hlog1).
-      - pose proof (pt_inv_write_switch st cl None p r Hi I Hlog1) as H. rewrite app_nil_r in H. exact H. }
+        + apply (pt_inv_write_current st cl p rs r Hi).
+        + apply (pt_inv_write_switch st cl (Some (p0, rs)) p r Hi Hne).
+      - pose proof (pt_inv_write_switch st cl None p r Hi I) as H. rewrite app_nil_r in H. exact H. }
     destruct Hstep as [Hok Hi1].
     destruct (pt_write st p r) as [st' o]. cbn [fst snd] in *. subst o.
     specialize (IH st' (seg_step cc (p, r)) Hi1).
     destruct (pt_run st' (map pw ws)) as [st'' os]. cbn [fst snd] in *.
-    destruct (IH Hlog) as [H1 H2]. split; [constructor; auto | exact H2].
+    destruct IH as [H1 H2]. split; [constructor; auto | exact H2].
 Qed.
 
 (* The final theorem.  [ws] = the records with the path their template yields; afterwards close(). *)
@@ -1533,9 +1433,10 @@ Lemma pt_close_log st : p_log (pt_close sh k st) = p_log st.
 Proof. unfold pt_close. destruct (p_writer st); reflexivity. Qed.
 
 Theorem rotation_keeps_everything clock ws :
-  Forall no_overwrite (p_log (pt_final clock ws)) ->
   (* every write succeeded *)
   Forall (fun o => o = Ok) (snd (pt_run (pt_init pre clock) (map pw ws))) /\
+  (* no rename replaced an existing file *)
+  Forall no_overwrite (p_log (pt_final clock ws)) /\
   (* names are unique; the files on disk are exactly the pre-existing files and one file per segment *)
   NoDup (map fst (pt_files (pt_final clock ws))) /\
   Permutation (map snd (pt_files (pt_final clock ws)))
@@ -1548,12 +1449,12 @@ Theorem rotation_keeps_everything clock ws :
   Forall (fun sg => readable (seg_file (snd sg)) = Some (expected k (snd sg))) (segs ws) /\
   List.concat (map snd (segs ws)) = map snd ws.
 Proof.
-  intros Hlog. unfold pt_final in *. rewrite pt_close_log in Hlog.
-  destruct (pt_run_inv ws (pt_init pre clock) ([], None) (pt_init_inv clock) Hlog) as [Hok Hi].
+  unfold pt_final in *. rewrite pt_close_log.
+  destruct (pt_run_inv ws (pt_init pre clock) ([], None) (pt_init_inv clock)) as [Hok Hi].
   set (st := fst (pt_run (pt_init pre clock) (map pw ws))) in *.
   unfold segs. set (cc := seg_run ([], None) ws) in *.
-  destruct Hi as (Hn & Hp & Ho & Hcur).
-  split; [exact Hok|].
+  destruct Hi as (Hn & Hp & Ho & Hl & Hcur).
+  split; [exact Hok|]. split; [exact Hl|].
   assert (Hfiles : pt_files (pt_close sh k st) =
                    p_fs st ++ match snd cc with Some sg => [seg_entry sg] | None => [] end).
   { unfold pt_files, pt_close. destruct (snd cc) as [[p rs]|].
@@ -1629,6 +1530,30 @@ Proof.
   eapply suffix_text_inj; eauto.
 Qed.
 
+(* the rotated names rotate_existing_file tries for one path and stamp are pairwise distinct *)
+Lemma dec_inj a b : dec a = dec b -> a = b.
+Proof. intros H. apply (suffix_text_inj 0). unfold suffix_text. cbn [Nat.sub zeros]. cbn. exact H. Qed.
+
+Lemma stamp_n_inj s n m : stamp_n s n = stamp_n s m -> n = m.
+Proof.
+  assert (Hne : forall k, s <> s ++ "-" ++ dec (N.of_nat (S k))).
+  { intros k H. apply (f_equal String.length) in H. rewrite str_length_app in H. cbn in H. lia. }
+  destruct n as [|n], m as [|m]; cbn [stamp_n]; intros H; try reflexivity.
+  - exfalso. eapply Hne; eauto.
+  - exfalso. eapply Hne; eauto.
+  - apply str_app_inv_head in H. apply str_app_inv_head in H. apply dec_inj in H. apply Nat2N.inj in H. exact H.
+Qed.
+
+Lemma rot_name_py_inj p s n m : rot_name_py p s n = rot_name_py p s m -> n = m.
+Proof.
+  unfold rot_name_py.
+  destruct (match rsplit_last slash (la p) with Some (d, f) => (sl d ++ "/", sl f) | None => ("", p) end) as [dir fname].
+  destruct (ends_with ".records.gz" fname).
+  - intros H. do 3 apply str_app_inv_head in H. apply str_app_inv_tail in H. eapply stamp_n_inj; eauto.
+  - destruct (py_splitext fname) as [f e]. intros H. do 3 apply str_app_inv_head in H.
+    apply (str_app_inv_tail ("." ++ e)) in H. eapply stamp_n_inj; eauto.
+Qed.
+
 (* ------------------------------------------------------------------------------------------------ *)
 (* packaged statements used by props/C17.v                                                            *)
 
@@ -1662,7 +1587,7 @@ Proof.
   intros SH Hc Hk.
   assert (Hh : has_close [c] = true) by (cbn; rewrite Hc; reflexivity).
   assert (He : excluded k [c] = false).
-  { destruct k; cbn; try reflexivity; [rewrite (Hk eq_refl); reflexivity | destruct c; try discriminate; reflexivity]. }
+  { destruct k; cbn; try reflexivity. rewrite (Hk eq_refl). reflexivity. }
   destruct (closed_means_durable sh batch SH k [c] Hh He) as [_ R]. rewrite R.
   rewrite run_cons. destruct (step sh batch k (w_init k) c) as [st' out]. cbn.
   destruct c; try discriminate Hc; cbn; destruct k; reflexivity.
@@ -1704,163 +1629,6 @@ Qed.
 Lemma closing_of_bare c : c = Close \/ c = Del -> is_closing c = true.
 Proof. intros [-> | ->]; reflexivity. Qed.
 
-(* ------------------------------------------------------------------------------------------------ *)
-(* a sufficient condition for "no rename replaced a file": rotated names are used for nothing else, and the
-   rotation stamps are pairwise distinct per path                                                       *)
-
-Section RotationStamps.
-Variable sh : shapes.
-Variable batch : nat.
-Variable rot_name : path -> stamp -> path.
-Variable k : adapter.
-Variable U : list path.        (* the names in use otherwise: pre-existing files and template paths *)
-
-Hypothesis ROT_INJ : forall p s p' s', rot_name p s = rot_name p' s' -> p = p' /\ s = s'.
-Hypothesis ROT_FRESH : forall p s, ~ In (rot_name p s) U.
-
-Notation pt_write := (Writers.pt_write sh batch rot_name k).
-Notation pt_run := (Writers.pt_run sh batch rot_name k).
-
-Definition ren_pair (e : rename_event) : path * stamp := (ren_src e, ren_stamp e).
-Definition key_ok (log : list rename_event) (q : path) : Prop := In q U \/ In q (map ren_dst log).
-Definition keys_inv (st : pstate) : Prop :=
-  (forall q, In q (map fst (pt_files st)) -> key_ok (p_log st) q) /\
-  Forall (fun e => ren_dst e = rot_name (ren_src e) (ren_stamp e)) (p_log st).
-
-Lemma key_ok_mono log new q : key_ok log q -> key_ok (log ++ new) q.
-Proof. intros [H|H]; [left; exact H | right; rewrite map_app, in_app_iff; left; exact H]. Qed.
-
-Lemma nodup_app_l {A} (a b : list A) : NoDup (a ++ b) -> NoDup a.
-Proof.
-  induction a as [|x a IH]; cbn; intros H; [constructor|]. inversion H; subst.
-  constructor; [rewrite in_app_iff in *; tauto | auto].
-Qed.
-
-Lemma nodup_snoc_notin {A} (l : list A) x : NoDup (l ++ [x]) -> ~ In x l.
-Proof. intros H. apply NoDup_remove_2 in H. rewrite app_nil_r in H. exact H. Qed.
-
-Lemma fs_put_keys {V} p (v : V) l q : In q (map fst (fs_put String.eqb p v l)) -> q = p \/ In q (map fst l).
-Proof.
-  unfold fs_put. rewrite map_app, in_app_iff, fs_remove_keys. cbn. intros [[H _]|[H|[]]]; [right; exact H | left; auto].
-Qed.
-Lemma fs_rename_keys {V} p dst (l : list (string * V)) q :
-  In q (map fst (fs_rename String.eqb p dst l)) -> q = dst \/ In q (map fst l).
-Proof.
-  unfold fs_rename. destruct (fs_get String.eqb p l) as [v|]; [|right; assumption].
-  intros H. apply fs_put_keys in H. destruct H as [H|H]; [left; exact H|]. right. apply fs_remove_keys in H. tauto.
-Qed.
-
-Lemma pt_rotate_keys st p : keys_inv st -> NoDup (map ren_pair (p_log (pt_rotate rot_name st p))) ->
-  Forall no_overwrite (p_log st) ->
-  let st1 := pt_rotate rot_name st p in
-  Forall no_overwrite (p_log st1) /\
-  Forall (fun e => ren_dst e = rot_name (ren_src e) (ren_stamp e)) (p_log st1) /\
-  (exists new, p_log st1 = p_log st ++ new) /\
-  p_current st1 = p_current st /\ p_writer st1 = p_writer st /\
-  (forall q, In q (map fst (p_fs st1)) -> key_ok (p_log st1) q).
-Proof.
-  intros [Hk Hwf] Hnd Hno. unfold pt_rotate in *. destruct (fs_mem String.eqb p (p_fs st)) eqn:Em; cbn zeta.
-  - cbn [p_log p_current p_writer p_fs] in *.
-    set (s := hd EmptyString (p_clock st)) in *. set (dst := rot_name p s) in *.
-    assert (Hflag : fs_mem String.eqb dst (pt_files st) = false).
-    { destruct (fs_mem String.eqb dst (pt_files st)) eqn:Ef; [exfalso | reflexivity].
-      apply fs_mem_true in Ef. destruct (Hk dst Ef) as [H|H].
-      - apply (ROT_FRESH p s). exact H.
-      - apply in_map_iff in H. destruct H as (e' & He' & Hin).
-        rewrite Forall_forall in Hwf. rewrite (Hwf e' Hin) in He'. apply ROT_INJ in He'. destruct He' as [Hp Hs].
-        rewrite map_app in Hnd. cbn in Hnd. apply nodup_snoc_notin in Hnd. apply Hnd.
-        apply in_map_iff. exists e'. split; [|exact Hin]. unfold ren_pair. cbn. rewrite Hp, Hs. reflexivity. }
-    rewrite Hflag. repeat split; auto.
-    + apply Forall_app. split; [exact Hno|]. constructor; [reflexivity | constructor].
-    + apply Forall_app. split; [exact Hwf|]. constructor; [reflexivity | constructor].
-    + eexists. reflexivity.
-    + intros q Hq. apply fs_rename_keys in Hq. destruct Hq as [->|Hq].
-      * right. rewrite map_app, in_app_iff. right. left. reflexivity.
-      * apply key_ok_mono. apply Hk. unfold pt_files. rewrite map_app, in_app_iff. left. exact Hq.
-  - repeat split; auto.
-    + exists []. rewrite app_nil_r. reflexivity.
-    + intros q Hq. apply Hk. unfold pt_files. rewrite map_app, in_app_iff. left. exact Hq.
-Qed.
-
-Lemma pt_write_keys st p r : keys_inv st -> In p U ->
-  NoDup (map ren_pair (p_log (fst (pt_write st p r)))) -> Forall no_overwrite (p_log st) ->
-  Forall no_overwrite (p_log (fst (pt_write st p r))) /\ keys_inv (fst (pt_write st p r)) /\
-  (exists new, p_log (fst (pt_write st p r)) = p_log st ++ new).
-Proof.
-  intros Hinv Hp Hnd Hno. unfold Writers.pt_write in *.
-  set (st1 := match p_current st with
-              | Some p0 => if String.eqb p0 p then st else pt_switch sh rot_name k st p
-              | None => pt_switch sh rot_name k st p end) in *.
-  assert (Hlog1 : forall w', p_log (mkP (p_current st1) (Some w') (p_fs st1) (p_clock st1) (p_log st1)) = p_log st1) by reflexivity.
-  assert (Hst' : p_log (fst (match p_writer st1 with
-                             | Some w => let (w', o) := do_write batch k w r in
-                                         (mkP (p_current st1) (Some w') (p_fs st1) (p_clock st1) (p_log st1), o)
-                             | None => (st1, Raised) end)) = p_log st1).
-  { destruct (p_writer st1); [destruct (do_write batch k w r)|]; reflexivity. }
-  rewrite Hst' in *.
-  assert (Hmain : Forall no_overwrite (p_log st1) /\ keys_inv st1 /\ (exists new, p_log st1 = p_log st ++ new)).
-  { assert (Hsame : st1 = st -> Forall no_overwrite (p_log st1) /\ keys_inv st1 /\ (exists new, p_log st1 = p_log st ++ new)).
-    { intros ->. repeat split; try apply Hinv; auto. exists []. rewrite app_nil_r. reflexivity. }
-    assert (Hsw : st1 = pt_switch sh rot_name k st p ->
-                  Forall no_overwrite (p_log st1) /\ keys_inv st1 /\ (exists new, p_log st1 = p_log st ++ new)).
-    { intros E. rewrite E in *. unfold pt_switch in *. cbn [p_log] in *.
-      destruct (pt_rotate_keys st p Hinv Hnd Hno) as (H1 & H2 & H3 & H4 & H5 & H6).
-      split; [exact H1|]. split; [|exact H3]. split; [|exact H2].
-      cbn [p_log]. unfold pt_files. cbn [p_fs p_current p_writer]. intros q. rewrite map_app, in_app_iff. cbn.
-      intros [Hq|[Hq|[]]]; [|left; subst; exact Hp].
-      apply fs_remove_keys in Hq. destruct Hq as [Hq _].
-      destruct Hinv as [Hk _]. destruct H3 as [new Hnew].
-      destruct (p_current st) as [p0|] eqn:Ec; [destruct (p_writer st) as [w0|] eqn:Ew|]; try (apply H6; exact Hq).
-      apply fs_put_keys in Hq. destruct Hq as [->|Hq]; [|apply H6; exact Hq].
-      rewrite Hnew. apply key_ok_mono. apply Hk. unfold pt_files. rewrite Ec, Ew, map_app, in_app_iff. right. left. reflexivity. }
-    subst st1. destruct (p_current st) as [p0|]; [destruct (String.eqb p0 p)|]; auto. }
-  destruct Hmain as (H1 & [Hk1 Hwf1] & H3). split; [exact H1|]. split; [|exact H3].
-  split; [|destruct (p_writer st1); [destruct (do_write batch k w r)|]; exact Hwf1].
-  intros q Hq. assert (Hq1 : In q (map fst (pt_files st1))).
-  { revert Hq. unfold pt_files. destruct (p_writer st1) as [w|] eqn:Ew; cbn [fst]; rewrite ?Ew; [|auto].
-    destruct (do_write batch k w r) as [w' o]. cbn [fst p_fs p_current p_writer].
-    destruct (p_current st1); rewrite !map_app; cbn; auto. }
-  assert (Hl : p_log (fst (match p_writer st1 with
-                           | Some w => let (w', o) := do_write batch k w r in
-                                       (mkP (p_current st1) (Some w') (p_fs st1) (p_clock st1) (p_log st1), o)
-                           | None => (st1, Raised) end)) = p_log st1) by exact Hst'.
-  rewrite Hl. apply Hk1. exact Hq1.
-Qed.
-
-Lemma pt_run_keys ws : forall st, keys_inv st -> incl (map fst ws) U ->
-  NoDup (map ren_pair (p_log (fst (pt_run st (map pw ws))))) -> Forall no_overwrite (p_log st) ->
-  Forall no_overwrite (p_log (fst (pt_run st (map pw ws)))).
-Proof.
-  induction ws as [|[p r] ws IH]; intros st Hinv Hu Hnd Hno; cbn [map pw fst snd Writers.pt_run] in *; [exact Hno|].
-  assert (Hp : In p U) by (apply Hu; left; reflexivity).
-  assert (Hu' : incl (map fst ws) U) by (intros q Hq; apply Hu; right; exact Hq).
-  destruct (pt_write st p r) as [st' o] eqn:E. cbn [fst] in *.
-  assert (Hnd1 : NoDup (map ren_pair (p_log st'))).
-  { destruct (pt_run_log sh batch rot_name k ws st') as [new Hn]. destruct (pt_run st' (map pw ws)) as [st'' os]. cbn [fst] in *.
-    rewrite Hn, map_app in Hnd. apply nodup_app_l in Hnd. exact Hnd. }
-  pose proof (pt_write_keys st p r Hinv Hp) as Hstep. rewrite E in Hstep. cbn [fst] in Hstep.
-  destruct (Hstep Hnd1 Hno) as (H1 & H2 & _).
-  specialize (IH st' H2 Hu'). destruct (pt_run st' (map pw ws)) as [st'' os]. cbn [fst] in *. auto.
-Qed.
-
-End RotationStamps.
-
-(* packaged: rotated names are used for nothing else (not a pre-existing file, not a template path), rot_name is
-   injective, and the (path, stamp) pairs of the rotations are pairwise distinct  ==>  no rename replaced a file *)
-Theorem rotation_distinct_stamps sh batch rot_name k pre clock ws :
-  (forall p s p' s', rot_name p s = rot_name p' s' -> p = p' /\ s = s') ->
-  (forall p s, ~ In (rot_name p s) (map fst pre ++ map fst ws)) ->
-  NoDup (map ren_pair (p_log (pt_final sh batch rot_name k pre clock ws))) ->
-  Forall no_overwrite (p_log (pt_final sh batch rot_name k pre clock ws)).
-Proof.
-  intros Hinj Hfresh Hnd. unfold pt_final in *. rewrite pt_close_log in *.
-  apply (pt_run_keys sh batch rot_name k (map fst pre ++ map fst ws) Hinj Hfresh ws (pt_init pre clock)); auto.
-  - split; [|constructor]. intros q Hq. left. unfold pt_files, pt_init in Hq. cbn in Hq. rewrite app_nil_r in Hq.
-    apply in_or_app. left. exact Hq.
-  - intros q Hq. apply in_or_app. right. exact Hq.
-  - constructor.
-Qed.
-
 (* the unrestricted durability statement, and why it is false while StreamWriter.close does not flush *)
 Definition durable_full (sh : shapes) : Prop :=
   forall batch k h, has_close h = true ->
@@ -1871,3 +1639,19 @@ Proof.
   intros SH Hf H. specialize (H 0 AStream [Close] eq_refl).
   destruct (stream_bare_close_fails sh 0 [Close] SH Hf eq_refl) as (_ & _ & Hn). rewrite Hn in H. discriminate.
 Qed.
+
+(* every adapter but the stream adapter: no exclusion at all *)
+Lemma closed_means_durable_nonstream sh batch k h : shapes_ok sh = true -> k <> AStream -> has_close h = true ->
+  w_open (fst (run sh batch k (w_init k) h)) = false /\
+  readable (w_file (fst (run sh batch k (w_init k) h))) = Some (expected k (snd (run sh batch k (w_init k) h))).
+Proof.
+  intros SH Hk Hc. apply closed_means_durable; [exact SH | exact Hc|]. destruct k; try reflexivity. congruence.
+Qed.
+
+(* the generated facts with one repair undone (for the witnesses of what each repair prevents) *)
+Definition with_avro_unfixed (sh : shapes) : shapes :=
+  mkShapes (sh_exit sh) (sh_del sh) true false (sh_avro_close_flushes sh) (sh_stream_close_flushes sh)
+           (sh_split_ge sh) (sh_split_roll sh) (sh_rotate_counter sh).
+Definition with_rotation_unfixed (sh : shapes) : shapes :=
+  mkShapes (sh_exit sh) (sh_del sh) (sh_avro_flush_placeholder sh) (sh_avro_close_placeholder sh)
+           (sh_avro_close_flushes sh) (sh_stream_close_flushes sh) (sh_split_ge sh) (sh_split_roll sh) false.
